@@ -12,8 +12,8 @@ import (
 func init() {
 	register(&Prop{
 		ID:          "C08",
-		Explanation: "Decides that the authorisation predicates guard every serving path: every nil-error return of getAuthenticatedSession that is not a configured bypass re-ran Validator(session.Email) (skipped only for an empty e-mail) and provider.Authorize(session) with outcome true, and every ErrAccessDenied return first calls ClearSessionCookie; the login callback saves a session only after Validator(session.Email) && Authorize(session); the auth-only 202 writer is reached only after authOnlyAuthorize(req, session)==true for the session getAuthenticatedSession returned; authOnlyAuthorize returns true only for a nil session or after every element of a constraint list containing the three query constraints returned true; each query constraint returns true only when its parameter is absent or a membership test on the session's own field succeeded; the only Provider.Authorize implementation returns true only for an empty allowed-groups map or a membership hit of a session group.",
-		NotDecided:  "string semantics of the e-mail/domain validators (isEmailValidWithDomains, IsEndpointAllowed suffix rules) and of UserMap contents: values, not code shape.",
+		Explanation: "Decides that the authorisation predicates guard every serving path: every nil-error return of getAuthenticatedSession that is not a configured bypass re-ran Validator(session.Email) (skipped only for an empty e-mail) and provider.Authorize(session) with outcome true, and every ErrAccessDenied return first calls ClearSessionCookie; the login callback saves a session only after Validator(session.Email) && Authorize(session); the auth-only 202 writer is reached only after authOnlyAuthorize(req, session)==true for the session getAuthenticatedSession returned; authOnlyAuthorize returns true only for a nil session or after every element of a constraint list containing the three query constraints returned true; each query constraint returns true only when its parameter is absent or a membership test on the session's own field succeeded; the only Provider.Authorize implementation returns true only for an empty allowed-groups map or a membership hit of a session group; isEmailValidWithDomains accepts only through suffix tests applied to an end-anchored part of the address (the address or its last '@'-separated element) against an operand that starts at '@' or at a '.' label boundary, and the validator closure answers true only by that rule, the authenticated-emails file or the '*' rule and never for an empty address.",
+		NotDecided:  "value semantics of the string predicates beyond their accepting-path structure (case folding, unusual local parts), IsEndpointAllowed for auth-only domain constraints (see C06.R4), UserMap contents.",
 		Run:         runC08,
 	})
 }
@@ -23,6 +23,7 @@ func runC08(c *Ctx) {
 	r.Rule("R1-every-request", "authenticated returns of getAuthenticatedSession re-run Validator and Authorize; denied returns clear the cookie first", 4)
 	r.Rule("R2-callback", "callback saves only after Validator(session.Email) && Authorize(session)", 1)
 	r.Rule("R3-auth-only", "202 only after authOnlyAuthorize(req, session)==true; authOnlyAuthorize / checkAllowed* structure", 10)
+	r.Rule("R5-email-validator", "accepting paths of the e-mail validator: end-anchored suffix tests at '@' or '.' boundaries; validator true only by domain rule, file or '*'", 2)
 	r.Rule("R4-authorize", "Provider.Authorize has one implementation, true only on empty AllowedGroups or membership", 2)
 
 	// ---- R1 ---------------------------------------------------------------------------------
@@ -88,6 +89,8 @@ func runC08(c *Ctx) {
 		})
 		runC08AuthOnlyAuthorize(c, rule, aoa)
 	}
+
+	runC08R5(c)
 
 	// ---- R4 ---------------------------------------------------------------------------------
 	rule = "R4-authorize"
@@ -412,4 +415,137 @@ func runC08AuthOnlyAuthorize(c *Ctx, rule string, aoa *ssa.Function) {
 			c.bad(rule, key, p.Exit, fn.Name()+" can return true although "+param+" is present and no membership test on the session succeeded", p, p.End())
 		})
 	}
+}
+
+// runC08R5: accepting paths of the e-mail validator (structure of the suffix tests, not their values).
+func runC08R5(c *Ctx) {
+	rule := "R5-email-validator"
+	ievd := c.Fn(rule, "main.isEmailValidWithDomains")
+	vfn := c.Fn(rule, "main.newValidatorImpl$1")
+	isValid := c.Fn(rule, "(*main.UserMap).IsValid")
+	if ievd == nil || vfn == nil || isValid == nil {
+		return
+	}
+	email, domains := ievd.Params[0], ievd.Params[1]
+	isDomainElem := func(v ssa.Value) bool {
+		u, ok := v.(*ssa.UnOp)
+		if !ok {
+			return false
+		}
+		ia, ok := u.X.(*ssa.IndexAddr)
+		return ok && ia.X == domains
+	}
+	c.Walk(rule, ievd, func(p *walk.Path) {
+		rv, ok := p.ReturnDV(0)
+		if !ok {
+			return
+		}
+		if b, k := p.Truth(rv, p.End()); k && !b {
+			return
+		}
+		at := p.End()
+		key := "true-return|" + fnKey(ievd)
+		// collect the accepting suffix tests
+		okAll, any := true, false
+		why := ""
+		for _, a := range p.Atoms(at) {
+			call, ok := a.DV.V.(*ssa.Call)
+			if !ok || a.IsNil || !a.Val || !isStd(&call.Call, "strings", "HasSuffix") {
+				continue
+			}
+			any = true
+			subj := p.Resolve(p.Op(call.Call.Args[0], a.DV))
+			op := p.Resolve(p.Op(call.Call.Args[1], a.DV))
+			// subject: the address itself or the last '@'-separated element
+			endAnchored := subj.V == email
+			if u, ok := subj.V.(*ssa.UnOp); ok {
+				if ia, ok := u.X.(*ssa.IndexAddr); ok {
+					if sp, ok := ia.X.(*ssa.Call); ok && isStd(&sp.Call, "strings", "Split") && sp.Call.Args[0] == email {
+						if sep, _ := ConstString(sp.Call.Args[1]); sep == "@" {
+							if bo, ok := ia.Index.(*ssa.BinOp); ok && bo.Op == token.SUB {
+								if n, ok := ConstInt(bo.Y); ok && n == 1 {
+									if ln, ok := bo.X.(*ssa.Call); ok {
+										if bi, ok := ln.Call.Value.(*ssa.Builtin); ok && bi.Name() == "len" && ln.Call.Args[0] == sp {
+											endAnchored = true
+										}
+									}
+								}
+							}
+						}
+					}
+				}
+			}
+			// operand: "@"+domain, or domain known to start with ".", or domain[1:] with domain known to start with "*."
+			boundary := false
+			if bo, ok := op.V.(*ssa.BinOp); ok && bo.Op == token.ADD {
+				if s, _ := ConstString(bo.X); s == "@" && isDomainElem(bo.Y) && subj.V == email {
+					boundary = true
+				}
+			}
+			base := op
+			if sl, ok := op.V.(*ssa.Slice); ok {
+				base = p.Op(sl.X, op)
+			}
+			dom := func(x walk.DV) bool { return isDomainElem(p.Resolve(x).V) && p.Same(x, base) }
+			if isDomainElem(op.V) && strCallAtom(p, at, "HasPrefix", true, dom, isConstStr(p, ".")) {
+				boundary = true
+			}
+			if sl, ok := op.V.(*ssa.Slice); ok && isDomainElem(sl.X) && sl.High == nil {
+				if n, ok := ConstInt(sl.Low); ok && n == 1 && strCallAtom(p, at, "HasPrefix", true, dom, isConstStr(p, "*.")) {
+					boundary = true
+				}
+			}
+			if !endAnchored || !boundary {
+				okAll = false
+				why += sprintf(" [HasSuffix(%s, %s): end-anchored=%v boundary=%v]", subj.V.Name(), op.V.Name(), endAnchored, boundary)
+			}
+		}
+		if any && okAll {
+			c.ok(rule, key, p.Exit, "accepted by a suffix test on an end-anchored part of the address against an operand that starts at '@' or at a '.' label boundary")
+		} else {
+			c.bad(rule, key, p.Exit, "an address is accepted by a test that is not end-anchored in the address (the last '@'-separated element) or whose operand does not start at '@' / a '.' boundary: a@allowed.example@evil.org or x@evilexample.com passes"+why, p, at)
+		}
+	})
+	// the validator closure
+	c.Walk(rule, vfn, func(p *walk.Path) {
+		rv, ok := p.ReturnDV(0)
+		if !ok {
+			return
+		}
+		if b, k := p.Truth(rv, p.End()); k && !b {
+			return
+		}
+		at := p.End()
+		key := "validator-true|" + fnKey(vfn)
+		if eqConstAtom(p, at, true, "", func(x walk.DV) bool { return p.Resolve(x).V == vfn.Params[0] }) {
+			c.bad(rule, key, p.Exit, "the validator accepts an empty e-mail address", p, at)
+			return
+		}
+		_, byDomain := Has(p, at, Need{M: walk.Static(ievd), Idx: -1, Out: IsTrue})
+		_, byFile := Has(p, at, Need{M: walk.Static(isValid), Idx: -1, Out: IsTrue})
+		if cl, ok := extractOfCall(p, rv, 0); ok && (cl.C.StaticCallee() == ievd || cl.C.StaticCallee() == isValid) {
+			byFile = true // the verdict of one of the two predicates is returned as is
+		}
+		allowAll := false
+		for _, a := range p.Atoms(at) {
+			if u, ok := a.DV.V.(*ssa.UnOp); ok && !a.IsNil && a.Val {
+				if fv, ok := u.X.(*ssa.FreeVar); ok && fv.Name() == "allowAll" {
+					allowAll = true
+				}
+			}
+		}
+		if byDomain || byFile || allowAll {
+			c.ok(rule, key, p.Exit, "domain rule, authenticated-emails file, or '*'")
+		} else {
+			c.bad(rule, key, p.Exit, "the validator accepts an address without a domain rule hit, a file hit or the '*' rule", p, at)
+		}
+	})
+}
+
+// domainOf returns the loop element a suffix operand is built from (domain or domain[1:]).
+func domainOf(v ssa.Value) ssa.Value {
+	if sl, ok := v.(*ssa.Slice); ok {
+		return sl.X
+	}
+	return v
 }
